@@ -1,7 +1,8 @@
 #!/bin/bash
-# like seeded_all.sh, for the seeded changes of the properties given as arguments (e.g. C01 C02)
+# like seeded_all.sh (ONLY="C10i C18i" restricts to those ids), for the seeded changes of the properties given as arguments (e.g. C01 C02)
 cd "$(dirname "$0")/.."
 for d in seeded/C*; do
+  if [ -n "$ONLY" ]; then case " $ONLY " in *" $(basename $d) "*) ;; *) continue;; esac; fi
   p=$(python3 -c "import json,sys; print(json.load(open('$d/meta.json'))['property'])")
   case " $* " in *" $p "*) ;; *) continue;; esac
   out=$(run/seeded_eval.sh /verif/$d/patch.diff $p quick 2>&1)
